@@ -516,6 +516,16 @@ func c10Lex(text string) (string, error) {
 		case c == ' ':
 			i++
 			afterDotOrColon = nameCtx
+		case c == '-' && i+1 < len(rs) && rs[i+1] == '[':
+			out = append(out, "-[")
+			i += 2
+		case c == ']' && i+2 < len(rs) && rs[i+1] == '-' && rs[i+2] == '>':
+			out = append(out, "]->")
+			i += 3
+		case c == '|':
+			out = append(out, "|")
+			i++
+			afterDotOrColon = true // a relationship kind follows
 		case c == '(' || c == ')' || c == '[' || c == ']' || c == ',' || c == '-':
 			out = append(out, string(c))
 			i++
@@ -623,9 +633,26 @@ func c10Lex(text string) (string, error) {
 				break
 			}
 			switch lower {
-			case "or", "xor", "and", "not", "contains", "in", "null", "true", "false":
+			case "or", "xor", "and", "not", "contains", "in", "null", "true", "false",
+				"match", "where", "return", "distinct", "asc", "desc", "skip", "limit", "set", "remove", "create", "delete":
 				out = append(out, lower)
 				i = j
+			case "order":
+				if w, k := peekWord(j); w == "by" {
+					out = append(out, "order_by")
+					i = k
+				} else {
+					out = append(out, "i"+c10Quote(word))
+					i = j
+				}
+			case "detach":
+				if w, k := peekWord(j); w == "delete" {
+					out = append(out, "detach_delete")
+					i = k
+				} else {
+					out = append(out, "i"+c10Quote(word))
+					i = j
+				}
 			case "starts", "ends":
 				if w, k := peekWord(j); w == "with" {
 					out = append(out, lower+"_with")
@@ -869,6 +896,308 @@ func firstDiff(a, b *sx, path string) string {
 		return s
 	}
 	return fmt.Sprintf("%s: %s <> %s", path, clip(as), clip(bs))
+}
+
+// ---------------------------------------------------------------------------------------------------
+// whole query -> term of the Lean clause-level algebra (lean/Dawgs/Model/C10Q.lean `Query`)
+// ---------------------------------------------------------------------------------------------------
+
+func optStrTerm(s string, present bool) *sx {
+	if !present {
+		return sxAtom("none")
+	}
+	return sxStr(s)
+}
+
+func ksTerm(kinds graph.Kinds) *sx {
+	ks := sxList(sxAtom("ks"))
+	for _, k := range kinds {
+		ks.list = append(ks.list, sxStr(k.String()))
+	}
+	return ks
+}
+
+// propsTerm: pattern properties are a parameter (builders) or cypher.Properties{Parameter} (frontend)
+func propsTerm(p cypher.Expression) (*sx, bool) {
+	switch t := p.(type) {
+	case nil:
+		return sxAtom("none"), true
+	case *cypher.Parameter:
+		if t == nil {
+			return sxAtom("none"), true
+		}
+		return sxStr(t.Symbol), true
+	case *cypher.Properties:
+		if t == nil {
+			return sxAtom("none"), true
+		}
+		if t.Map == nil && t.Parameter != nil {
+			return sxStr(t.Parameter.Symbol), true
+		}
+	}
+	return nil, false
+}
+
+func patternTerm(parts []*cypher.PatternPart) []*sx {
+	var out []*sx
+	for _, part := range parts {
+		if part.Variable != nil || part.ShortestPathPattern || part.AllShortestPathsPattern {
+			return []*sx{unmodelled("pattern-part")}
+		}
+		for _, pe := range part.PatternElements {
+			if np, ok := pe.AsNodePattern(); ok {
+				props, okp := propsTerm(np.Properties)
+				if !okp {
+					return []*sx{unmodelled("node-properties")}
+				}
+				v := sxAtom("none")
+				if np.Variable != nil {
+					v = sxStr(np.Variable.Symbol)
+				}
+				out = append(out, sxList(sxAtom("node"), v, ksTerm(np.Kinds), props))
+			} else if rp, ok := pe.AsRelationshipPattern(); ok {
+				props, okp := propsTerm(rp.Properties)
+				if !okp || rp.Range != nil || rp.Direction != graph.DirectionOutbound {
+					return []*sx{unmodelled("relationship-pattern")}
+				}
+				v := sxAtom("none")
+				if rp.Variable != nil {
+					v = sxStr(rp.Variable.Symbol)
+				}
+				out = append(out, sxList(sxAtom("rel"), v, ksTerm(rp.Kinds), props))
+			} else {
+				return []*sx{unmodelled("pattern-element")}
+			}
+		}
+	}
+	return out
+}
+
+func optOperandTerm(e cypher.Expression) *sx {
+	if e == nil {
+		return sxAtom("none")
+	}
+	return operandTerm(e)
+}
+
+func projTerm(r *cypher.Return) *sx {
+	if r == nil {
+		return sxAtom("none")
+	}
+	p := r.Projection
+	if p == nil {
+		return unmodelled("return-without-projection")
+	}
+	d := "0"
+	if p.Distinct {
+		d = "1"
+	}
+	items := sxList(sxAtom("items"))
+	for _, it := range p.Items {
+		pi, ok := it.(*cypher.ProjectionItem)
+		if !ok || pi.Alias != nil {
+			return unmodelled("projection-item")
+		}
+		if fn, ok := pi.Expression.(*cypher.FunctionInvocation); ok && fn.Distinct && len(fn.Namespace) == 0 && len(fn.Arguments) == 1 {
+			items.list = append(items.list, sxList(sxAtom("fnd"), sxStr(fn.Name), operandTerm(fn.Arguments[0])))
+		} else {
+			items.list = append(items.list, sxList(sxAtom("op"), operandTerm(pi.Expression)))
+		}
+	}
+	order := sxList(sxAtom("order"))
+	if p.Order != nil {
+		for _, s := range p.Order.Items {
+			a := "0"
+			if s.Ascending {
+				a = "1"
+			}
+			order.list = append(order.list, sxList(sxAtom("s"), operandTerm(s.Expression), sxAtom(a)))
+		}
+	}
+	sk, lim := sxAtom("none"), sxAtom("none")
+	if p.Skip != nil {
+		sk = optOperandTerm(p.Skip.Value)
+	}
+	if p.Limit != nil {
+		lim = optOperandTerm(p.Limit.Value)
+	}
+	return sxList(sxAtom("proj"), sxAtom(d), items, order, sk, lim)
+}
+
+func updTerm(u cypher.Expression) *sx {
+	uc, ok := u.(*cypher.UpdatingClause)
+	if !ok {
+		return unmodelled("updating-clause")
+	}
+	varOf := func(e cypher.Expression) (string, bool) {
+		v, ok := e.(*cypher.Variable)
+		if !ok || v == nil {
+			return "", false
+		}
+		return v.Symbol, true
+	}
+	switch c := uc.Clause.(type) {
+	case *cypher.Set:
+		out := sxList(sxAtom("set"))
+		for _, it := range c.Items {
+			switch {
+			case it.Operator == cypher.OperatorLabelAssignment:
+				v, ok := varOf(it.Left)
+				ks, ok2 := it.Right.(graph.Kinds)
+				if !ok || !ok2 {
+					return unmodelled("set-kinds")
+				}
+				out.list = append(out.list, sxList(sxAtom("skinds"), sxStr(v), ksTerm(ks)))
+			case it.Operator == cypher.OperatorAssignment:
+				pl, ok := it.Left.(*cypher.PropertyLookup)
+				if !ok {
+					return unmodelled("set-target")
+				}
+				v, ok := varOf(pl.Atom)
+				if !ok {
+					return unmodelled("set-target")
+				}
+				out.list = append(out.list, sxList(sxAtom("sprop"), sxStr(v), sxStr(pl.Symbol), operandTerm(it.Right)))
+			default:
+				return unmodelled("set-operator")
+			}
+		}
+		return out
+	case *cypher.Remove:
+		out := sxList(sxAtom("remove"))
+		for _, it := range c.Items {
+			if it.KindMatcher != nil {
+				km := it.KindMatcher
+				v, ok := varOf(km.Reference)
+				if !ok {
+					return unmodelled("remove-kinds")
+				}
+				out.list = append(out.list, sxList(sxAtom("rkinds"), sxStr(v), ksTerm(km.Kinds)))
+			} else if pl, ok := it.Property.(*cypher.PropertyLookup); ok {
+				v, ok := varOf(pl.Atom)
+				if !ok {
+					return unmodelled("remove-target")
+				}
+				out.list = append(out.list, sxList(sxAtom("rprop"), sxStr(v), sxStr(pl.Symbol)))
+			} else {
+				return unmodelled("remove-item")
+			}
+		}
+		return out
+	case *cypher.Delete:
+		d := "0"
+		if c.Detach {
+			d = "1"
+		}
+		out := sxList(sxAtom("delete"), sxAtom(d))
+		for _, e := range c.Expressions {
+			v, ok := varOf(e)
+			if !ok {
+				return unmodelled("delete-expression")
+			}
+			out.list = append(out.list, sxStr(v))
+		}
+		return out
+	case *cypher.Create:
+		if c.Unique {
+			return unmodelled("create-unique")
+		}
+		return sxList(append([]*sx{sxAtom("create")}, patternTerm(c.Pattern)...)...)
+	}
+	return unmodelled("update-clause")
+}
+
+// queryTerm renders a single-part query; whereOverride (if non-nil) replaces the WHERE expression term.
+func queryTerm(q *cypher.RegularQuery, whereOverride *sx, stripRelKinds bool) *sx {
+	if q == nil || q.SingleQuery == nil || q.SingleQuery.SinglePartQuery == nil || q.SingleQuery.MultiPartQuery != nil {
+		return unmodelled("query-shape")
+	}
+	sp := q.SingleQuery.SinglePartQuery
+	pat := sxList(sxAtom("pat"))
+	where := sxAtom("none")
+	switch len(sp.ReadingClauses) {
+	case 0:
+	case 1:
+		m := sp.ReadingClauses[0].Match
+		if m == nil || m.Optional {
+			return unmodelled("reading-clause")
+		}
+		pat.list = append(pat.list, patternTerm(m.Pattern)...)
+		if stripRelKinds {
+			for _, el := range pat.list[1:] {
+				if el.head() == "rel" {
+					el.list[2] = sxList(sxAtom("ks"))
+					break
+				}
+			}
+		}
+		if m.Where != nil {
+			switch len(m.Where.Expressions) {
+			case 0:
+			case 1:
+				where = exprTerm(m.Where.Expressions[0])
+			default:
+				return unmodelled("where-with-several-expressions")
+			}
+		}
+	default:
+		return unmodelled("several-reading-clauses")
+	}
+	if whereOverride != nil {
+		where = whereOverride
+	}
+	upds := sxList(sxAtom("upds"))
+	for _, u := range sp.UpdatingClauses {
+		upds.list = append(upds.list, updTerm(u))
+	}
+	return sxList(sxAtom("Q"), pat, sxList(sxAtom("where"), where), upds, sxList(sxAtom("ret"), projTerm(sp.Return)))
+}
+
+// normQueryTerm mirrors `normQd` of the Lean driver: only the WHERE is normalised.
+func normQueryTerm(q *sx) *sx {
+	if q.head() != "Q" || len(q.list) != 5 {
+		return q
+	}
+	out := sxList(q.list...)
+	pat := sxList(sxAtom("pat"))
+	for _, el := range q.list[1].args() {
+		if el.head() == "rel" && len(el.list) == 4 { // the kinds of a relationship pattern are a set
+			seen := map[string]bool{}
+			ks := sxList(sxAtom("ks"))
+			for _, k := range el.list[2].args() {
+				if !seen[k.str] {
+					seen[k.str] = true
+					ks.list = append(ks.list, k)
+				}
+			}
+			el = sxList(el.list[0], el.list[1], ks, el.list[3])
+		}
+		pat.list = append(pat.list, el)
+	}
+	out.list[1] = pat
+	w := q.list[2]
+	if w.head() == "where" && len(w.list) == 2 && w.list[1].isLst {
+		out.list[2] = sxList(sxAtom("where"), normTerm(w.list[1]))
+	}
+	return out
+}
+
+// blankParams replaces every parameter symbol of a term by "" (parameters before ParameterRewriter ran).
+func blankParams(t *sx) *sx {
+	if t == nil || !t.isLst {
+		return t
+	}
+	if t.head() == "param" && len(t.list) == 2 {
+		return sxList(sxAtom("param"), sxStr(""))
+	}
+	if (t.head() == "node" || t.head() == "rel") && len(t.list) == 4 && t.list[3].isStr {
+		return sxList(t.list[0], t.list[1], t.list[2], sxStr(""))
+	}
+	out := &sx{isLst: true}
+	for _, c := range t.list {
+		out.list = append(out.list, blankParams(c))
+	}
+	return out
 }
 
 var _ = graph.StringKind
